@@ -35,15 +35,15 @@ func (r Result) String() string {
 
 // SolverStats are aggregated into evidence.
 type SolverStats struct {
-	Queries  int
-	Sat      int
-	Unsat    int
-	Unknown  int
-	Errors   int
-	Fallback int // queries re-sent to the portfolio solvers
-	Killed   int // solver processes killed by the watchdog
-	BySolver map[string]int
-	Time     time.Duration
+	Queries       int
+	Sat           int
+	Unsat         int
+	Unknown       int
+	Errors        int
+	Fallback      int // queries re-sent to the portfolio solvers
+	Killed        int // solver processes killed by the watchdog
+	BySolver      map[string]int
+	Time          time.Duration
 	CrossChecked  int
 	CrossDisagree int
 }
@@ -85,7 +85,7 @@ type Solver struct {
 	dead       bool
 	lemma      map[int]Result // fp-sub lemma per width
 	noFallback bool
-	Deadline   time.Time      // queries after this instant answer unknown (case budget)
+	Deadline   time.Time // queries after this instant answer unknown (case budget)
 }
 
 func NewSolver(timeoutMs int) (*Solver, error) {
@@ -654,7 +654,9 @@ func valueText(e *sexpr) (string, bool) {
 }
 
 // FPSubLemma discharges, once per solver process and width, the lemma
-//   finite a, b  =>  ((a - b) == 0 <=> a == b) and ((a - b) < 0 <=> a < b) and ((a - b) > 0 <=> a > b)
+//
+//	finite a, b  =>  ((a - b) == 0 <=> a == b) and ((a - b) < 0 <=> a < b) and ((a - b) > 0 <=> a > b)
+//
 // (round-to-nearest-even subtraction). It is used as a rewrite only when unsat was returned.
 func (s *Solver) FPSubLemma() bool {
 	if s.lemma == nil {
